@@ -498,3 +498,144 @@ def k7(cx):
                      detail="each call builds what it is given; the context holds the latest build under each name",
                      bad_detail="; ".join(probs) + ": a kernel name does not identify a layout (same-named array classes of another axis order, a struct defined again): the accessor kept from the earlier build addresses other bytes", sub="sequence")
     cx.need(n == 4, f"only {n} of 4 add_kernels sequences evaluated")
+
+
+_COPYING = {"bytes", "bytearray", "int", "len", "float", "str", "bool", "copy", "tobytes", "tolist", "hex", "id", "repr", "type", "isinstance", "hasattr"}
+
+
+def _native_expr(node, in_buffer_class):
+    """does the expression read native storage of a buffer: X.buffer.buffer / X._buffer.buffer anywhere, self.buffer
+    inside a buffer class"""
+    for n in ast.walk(node):
+        if isinstance(n, ast.Attribute) and n.attr == "buffer":
+            inner = n.value
+            if isinstance(inner, ast.Attribute) and inner.attr in ("buffer", "_buffer"):
+                return True
+            if in_buffer_class and isinstance(inner, ast.Name) and inner.id == "self":
+                return True
+    return False
+
+
+def _tainted(node, tainted, in_buffer_class):
+    """may the value of `node` alias native storage: mentions it (or a tainted local) outside a copying call"""
+    if isinstance(node, ast.Call):
+        nm = node.func.attr if isinstance(node.func, ast.Attribute) else node.func.id if isinstance(node.func, ast.Name) else ""
+        if nm in _COPYING:
+            return False
+        if nm in ("_new_buffer", "zeros", "empty"):
+            return False
+        parts = list(node.args) + [k.value for k in node.keywords] + ([node.func.value] if isinstance(node.func, ast.Attribute) else [])
+        return any(_tainted(p, tainted, in_buffer_class) for p in parts)
+    if isinstance(node, ast.Name):
+        return node.id in tainted
+    if isinstance(node, ast.Attribute):
+        if _native_expr(node, in_buffer_class):
+            return node.attr not in ("nbytes", "size", "shape", "dtype", "itemsize", "ndim")
+        return _tainted(node.value, tainted, in_buffer_class) and node.attr not in ("nbytes", "size", "shape", "dtype", "itemsize", "ndim", "context")
+    if isinstance(node, ast.Subscript):
+        return _tainted(node.value, tainted, in_buffer_class)
+    if isinstance(node, (ast.Tuple, ast.List)):
+        return any(_tainted(e, tainted, in_buffer_class) for e in node.elts)
+    if isinstance(node, ast.IfExp):
+        return _tainted(node.body, tainted, in_buffer_class) or _tainted(node.orelse, tainted, in_buffer_class)
+    if isinstance(node, ast.BinOp):
+        return False  # arithmetic yields numbers / new arrays
+    if isinstance(node, ast.Starred):
+        return _tainted(node.value, tainted, in_buffer_class)
+    return False
+
+
+@rule("NC2", ["C04", "C13", "C08", "C17", "C10", "C06", "C18"], "may-alias analysis over the whole package: nothing that aliases a buffer's native storage (the storage itself, a memoryview / frombuffer / slice view of it, a pointer into it) is kept in an attribute, a module-level container or a closure -- the storage is replaced when the buffer grows")
+def nc2(cx):
+    """`XBuffer.grow` rebinds `self.buffer` to new storage.  Any object that aliases the OLD storage and outlives the call
+    that made it reads and writes abandoned memory afterwards.  Per function: locals assigned from an expression that
+    mentions native storage (`self.buffer` inside a buffer class, `x.buffer.buffer` / `x._buffer.buffer` anywhere, results
+    of to_nplike / to_nparray / to_pointer_arg / memoryview / frombuffer on them) outside a copying call are tainted
+    (fixed point over the function's assignments); a store of a tainted value into an attribute, a subscript of a
+    non-local container or a `global` is reported.  The only exemption is the storage attribute itself
+    (`self.buffer = ...` in buffer classes)."""
+    m = cx.m
+    nfun = nsink = 0
+    found = []
+    VIEWERS = ("to_nplike", "to_nparray", "to_pointer_arg")
+    for modname in sorted(m.modules if hasattr(m, "modules") else []):
+        pass
+    mods = ["context", "context_cpu", "context_cupy", "context_pyopencl", "struct", "array", "ref", "string", "scalar", "hybrid_class", "typeutils", "capi", "linkedarray"]
+    for modname in mods:
+        try:
+            tree = m.mod(modname).tree
+        except Exception:
+            continue
+        for cls_or_fn in ast.walk(tree):
+            if not isinstance(cls_or_fn, (ast.FunctionDef,)):
+                continue
+            fn = cls_or_fn
+            qual = m.qualname(fn) if hasattr(fn, "modname") else f"{modname}::{fn.name}"
+            clsname = qual.split("::")[-1].split(".")[0] if "." in qual.split("::")[-1] else ""
+            in_buf = clsname.startswith("Buffer") or clsname == "XBuffer"
+            nfun += 1
+            tainted = set()
+            assigns = [s for s in ast.walk(fn) if isinstance(s, (ast.Assign, ast.AugAssign, ast.AnnAssign, ast.NamedExpr))]
+
+            def val_tainted(v):
+                if v is None:
+                    return False
+                if _tainted(v, tainted, in_buf):
+                    return True
+                # views handed out by the buffer API alias the storage as well (not inside the buffer class, whose own
+                # primitives RETURN them by contract)
+                for c in ast.walk(v):
+                    if isinstance(c, ast.Call) and isinstance(c.func, ast.Attribute) and c.func.attr in VIEWERS and not in_buf:
+                        return True
+                return False
+
+            for _ in range(4):
+                before = len(tainted)
+                for s in assigns:
+                    v = s.value
+                    tg = s.targets if isinstance(s, ast.Assign) else [s.target]
+                    if val_tainted(v):
+                        for t in tg:
+                            for nme in ([t] if isinstance(t, ast.Name) else [e for e in getattr(t, "elts", []) if isinstance(e, ast.Name)]):
+                                tainted.add(nme.id)
+                if len(tainted) == before:
+                    break
+            globs = {n for s in ast.walk(fn) if isinstance(s, ast.Global) for n in s.names}
+            local_names = {a.arg for a in fn.args.args + fn.args.kwonlyargs} | {t.id for s in assigns for t in (s.targets if isinstance(s, ast.Assign) else [s.target]) if isinstance(t, ast.Name)}
+            for s in assigns:
+                if not val_tainted(s.value):
+                    continue
+                for t in (s.targets if isinstance(s, ast.Assign) else [s.target]):
+                    if isinstance(t, ast.Attribute):
+                        if t.attr == "buffer" and in_buf:
+                            continue  # the storage attribute itself
+                        nsink += 1
+                        found.append((s, qual, f"attribute `{norm(t)}`"))
+                    elif isinstance(t, ast.Subscript):
+                        base = t.value
+                        while isinstance(base, (ast.Subscript, ast.Attribute)):
+                            base = base.value
+                        if isinstance(base, ast.Name) and base.id in local_names and base.id not in globs and not isinstance(t.value, ast.Attribute):
+                            continue  # filling a local container / writing INTO a local array
+                        nsink += 1
+                        found.append((s, qual, f"container `{norm(t.value)}`"))
+                    elif isinstance(t, ast.Name) and t.id in globs:
+                        nsink += 1
+                        found.append((s, qual, f"global `{t.id}`"))
+    for s, qual, where in found[:6]:
+        cx.bad(s, construct=f"{qual}: {norm(s)[:140]}", detail=f"a value that may alias the buffer's native storage is kept in {where}: after the buffer grows (its storage is replaced) this alias reads and writes the abandoned storage -- data written through the buffer are not seen, growth copies stale bytes", sub="alias")
+    if not found:
+        cx.ok(None, construct=f"{nfun} functions: no alias of native storage is stored in an attribute, a non-local container or a global", detail="every view / pointer is derived from the buffer's CURRENT storage at the point of use", anchor="context::XBuffer.grow", sub="alias")
+    cx.need(nfun >= 250, f"only {nfun} functions analysed")
+    # live positive example: the rule must recognise the form it is written for
+    probe = ast.parse("class BufferProbe:\n    def view(self):\n        if self._v is None:\n            mv = memoryview(self.buffer)\n            self._v = mv\n        return self._v[1:2]\n")
+    pf = probe.body[0].body[0]
+    t = set()
+    for _ in range(2):
+        for s in [x for x in ast.walk(pf) if isinstance(x, ast.Assign)]:
+            if _tainted(s.value, t, True):
+                for tg in s.targets:
+                    if isinstance(tg, ast.Name):
+                        t.add(tg.id)
+    hit = any(isinstance(s, ast.Assign) and isinstance(s.targets[0], ast.Attribute) and _tainted(s.value, t, True) for s in ast.walk(pf))
+    cx.need(hit, "NC2: the built-in positive example (self._v = memoryview(self.buffer)) is no longer recognised")
